@@ -39,6 +39,26 @@ func judgeC04(p *rm.Parsed, mq rm.Request, r rm.Router, o rs.Outcome) string {
 	return ""
 }
 
+// f16: signature of the recorded finding F16 - RouterJSR311 binds by capture-group position; a
+// variable whose regular expression contains its own capturing group shifts the groups, so the
+// variables after it are bound to the wrong submatch.
+func f16(p *rm.Parsed, r rm.Router, o rs.Outcome) string {
+	if r != rm.JSR311 || len(o.Invoked) != 1 {
+		return ""
+	}
+	si, ri, ok := p.RouteByID(o.Invoked[0].ID)
+	if !ok {
+		return ""
+	}
+	toks := p.Full[si][ri]
+	for i, t := range toks {
+		if t.Kind == rm.Re && strings.Contains(t.Expr, "(") && i < len(toks)-1 {
+			return "F16"
+		}
+	}
+	return ""
+}
+
 func dupVarNames(p *rm.Parsed) bool {
 	for _, fr := range p.Full {
 		for _, toks := range fr {
@@ -108,7 +128,7 @@ func checkC04(run *h.Run) {
 						if why := judgeC04(p, w.mreqs[qi], router, o); why != "" {
 							rc := routingCase{Sweep: sp.Name, Router: router.String(), Table: t, Req: w.reqs[qi], Observed: o, Other: map[string]any{"switched": switched}}
 							qi := qi
-							run.Violate("params/"+router.String(), "", fmt.Sprintf("[%s switched=%v] %v ; %v : %s", router, switched, t, w.reqs[qi], why), rc, func() bool {
+							run.Violate("params/"+router.String(), f16(p, router, o), fmt.Sprintf("[%s switched=%v] %v ; %v : %s", router, switched, t, w.reqs[qi], why), rc, func() bool {
 								b2 := rs.Build(t, opt)
 								return judgeC04(p, w.mreqs[qi], router, b2.Do(w.reqs[qi].HTTP(), h.NewRec(), false)) != ""
 							})
